@@ -92,9 +92,9 @@ class SessionInfo:
         self.current_time = current_time
 
         if np.isscalar(min_rates):
-            self.min_rates = np.array([min_rates] * self.remaining_time)
+            self.min_rates = np.array([min_rates] * self.remaining_time, dtype=float)
         elif len(min_rates) == self.remaining_time:
-            self.min_rates = np.array(min_rates)
+            self.min_rates = np.array(min_rates, dtype=float)
         else:
             raise ValueError(
                 "min_rates must be a scalar or list-like with length "
@@ -104,9 +104,9 @@ class SessionInfo:
             )
 
         if np.isscalar(max_rates):
-            self.max_rates = np.array([max_rates] * self.remaining_time)
+            self.max_rates = np.array([max_rates] * self.remaining_time, dtype=float)
         elif len(max_rates) == self.remaining_time:
-            self.max_rates = np.array(max_rates)
+            self.max_rates = np.array(max_rates, dtype=float)
         else:
             raise ValueError(
                 "max_rates must be a scalar or list-like with length "
